@@ -48,7 +48,7 @@ CHECKS["C11"] = ("stateful property-based testing (Hypothesis RuleBasedStateMach
 
 CHECKS["C12"] = ("property-based testing (Hypothesis): generated qiskit circuits converted and compared, amplitude by amplitude (own permanent), with qiskit's Operator up to one common scalar; refusals classified",
     "Generated qiskit circuits over the full supported gate set on 2-4 qubits (any qubit pairs/triples, either order, both post-selection modes, forced patterns of three-qubit gates followed by two-qubit gates and swaps between entangling gates); accepted amplitudes for every basis input must be k x Operator(qc) with the stated |k|^2, nothing accepted outside the qubit subspace; a refusal must be a ValueError in a legitimate class.",
-    "qiskit.quantum_info.Operator is the reference; own permanent; at most 3 heralded gates per circuit; circuits built from several quantum registers included; a conversion that does not return within 3 s is reported as a violation (hang).", "3/C12")
+    "qiskit.quantum_info.Operator is the reference; own permanent; at most 3 heralded gates per circuit; circuits built from several quantum registers included; a conversion that does not return within 10 s of CPU time is reported as a violation (hang).", "3/C12")
 CHECKS["C13"] = ("exhaustive enumeration of the finite gate/option/mode-pair table plus property-based testing (Hypothesis) of rotation angles; amplitudes from own permanent vs Kronecker-algebra gate matrices",
     "Every named gate and option, all 360 (1680) SWAP mode-pair placements and the invalid options are enumerated completely; rotation angles are generated; each amplitude matrix must be k x the named matrix with the stated |k|^2, heralded gates must not leak outside the qubit subspace, Simulator agrees on all basis inputs.",
     "Standard gate definitions; own permanent; finite part exhaustive, angles sampled.", "3/C13")
